@@ -19,6 +19,16 @@ def gen(rng, tier):
             key, ctx = rbytes(rng, 32), rbytes(rng, 8)
             for i in (ids if r == 0 or tier == "thorough" else ids[r::3]):
                 cs.append(Case("kdf %d %s %s %s" % (ln, hx(i.to_bytes(8, "little")), hx(ctx), hx(key)), cls="kdf/len=%d" % ln, meta={"grp": (ln, r)}))
+    # rejected lengths far outside the range too (the length travels through a u8 inside BLAKE2b): an error, never a panic or a
+    # truncated length
+    for ln in (255, 256, 257, 272, 288, 320, 512, 1000, 65536 + 32):
+        cs.append(Case("kdf %d %s %s %s" % (ln, hx((7).to_bytes(8, "little")), hx(rbytes(rng, 8)), hx(rbytes(rng, 32))), cls="kdf/rejected-len-large", expect="err"))
+    # the function has no memory: a derivation made right after another one with the same key, context and id but a different
+    # length (longer, shorter, equal, rejected) gives what a first call gives
+    for ln in (16, 17, 31, 32, 33, 48, 63, 64):
+        for prev in (16, 32, 64, ln + 1 if ln < 64 else 63, 65, 0, 300):
+            key, ctx, sid = rbytes(rng, 32), rbytes(rng, 8), rng.getrandbits(64)
+            cs.append(Case("kdf_after %d %s %s %s %d" % (ln, hx(sid.to_bytes(8, "little")), hx(ctx), hx(key), prev), cls="kdf/after-another-call"))
     for ln in list(range(0, 16)) + list(range(65, 81)):
         cs.append(Case("kdf %d %s %s %s" % (ln, hx((7).to_bytes(8, "little")), hx(rbytes(rng, 8)), hx(rbytes(rng, 32))), cls="kdf/rejected-len", expect="err"))
     # different ids / contexts / lengths under one key give different subkeys
